@@ -324,3 +324,11 @@ def generate(cls):
 if __name__ == "__main__":
     from cloudsync.provider import Provider
     print(generate(Provider))
+
+
+def generate_current():
+    """GenPath.v for the provider class the checks use (MockProvider); what build.regen_all calls."""
+    from . import envfix
+    envfix.install()
+    from cloudsync.providers.mock import MockProvider
+    return generate(MockProvider)
